@@ -274,6 +274,11 @@ Next ==
   \/ \E c \in Clients : Connect(c) \/ ClientClose(c) \/ Accept(c) \/ FanPick(c) \/ Writable(c) \/ (\E n \in 1..SockCap : ClientRead(c, n))
   \/ WakeBegin \/ RxMetric \/ RxEnd \/ DriveIdle \/ DriveWrite \/ FanDone
 Spec == Init /\ [][Next]_vars
+\* liveness: the transport thread keeps running and a connected client keeps reading
+TransportStep == Start \/ WakeBegin \/ RxMetric \/ RxEnd \/ DriveIdle \/ DriveWrite \/ FanDone
+                 \/ \E c \in Clients : Accept(c) \/ FanPick(c)
+FairSpec == Spec /\ WF_vars(TransportStep)
+                 /\ \A c \in Clients : SF_vars(Writable(c) /\ NextBuf(c) # None) /\ WF_vars(\E n \in 1..SockCap : ClientRead(c, n))
 
 -----------------------------------------------------------------------------
 (* Properties                                                              *)
@@ -305,6 +310,10 @@ QueueConservation ==
   \A c \in Clients : (c \in registered /\ pc \in {"poll", "fan", "rx"} /\ ~lost
                       /\ ~(\E i \in DOMAIN toRemove : toRemove[i] = c)) =>      \* not already found dead
       SelectSeq(enq[c], LAMBDA id : id \notin drp[c]) = Started(c) \o PendingIds(c)
+\* every frame queued for a client that stays connected is eventually on the wire (or was discarded as oldest)
+Delivery == \A c \in Clients : \A id \in FrameIds :
+   ((\E i \in DOMAIN enq[c] : enq[c][i] = id) /\ c \in registered)
+      ~> ((\E i \in DOMAIN Started(c) : Started(c)[i] = id) \/ id \in drp[c] \/ ~peerOpen[c] \/ c \notin registered)
 NoTornFrame == ~torn /\ ~lost
 StartsUp == ~crashed
 TypeOK == clientCount \in Int /\ pc \in {"boot", "dead", "poll", "rx", "fan", "drive"}
